@@ -138,3 +138,57 @@ def catalogue():
     C["par_block"] = (wf("m", [step("s1", [block("blk", "parallel", [irq("a1"), irq("a2"), irq("a3")])]), step("s2", [irq("a4")])]), {})
     C["seq_block"] = (wf("m", [step("s1", [block("blk", "sequence", [irq("a1"), irq("a2")])])]), {})
     return C
+
+
+# ----------------------------------------------------------------------------- C04 generated family
+CONDS = {"A": "x > 2", "B": "y > 2", "C": "x == y"}
+
+
+def c04_family(max_branches=3):
+    """Steps with 2..3 branches of every kind in every declaration order, followed by a second step;
+    plus conditional steps / acts.  Conditions are comparisons over the integer inputs x and y."""
+    import itertools
+    C = {}
+    kinds = ["ifA", "ifB", "ifC", "else", "needs"]
+    for n in range(2, max_branches + 1):
+        for combo in itertools.product(kinds, repeat=n):
+            if combo.count("else") > 1 or combo.count("needs") > 1:
+                continue
+            if not any(k.startswith("if") for k in combo):
+                continue
+            if len(set(combo)) != len(combo):
+                continue
+            branches = []
+            for i, k in enumerate(combo):
+                bid = "b%d" % (i + 1)
+                kw = {}
+                if k.startswith("if"):
+                    kw["if"] = CONDS[k[2]]
+                elif k == "else":
+                    kw["else"] = True
+                else:
+                    # needs the first conditional sibling
+                    tgt = [j for j, kk in enumerate(combo) if kk.startswith("if")][0]
+                    kw["needs"] = ["b%d" % (tgt + 1)]
+                branches.append(branch(bid, [step("s%d1" % (i + 1), [irq("a%d" % (i + 1))])], **kw))
+            name = "c04:" + ",".join(combo)
+            C[name] = (wf("m", [step("s1", branches=branches), step("s2", [irq("z1")])]), {"x": "$int", "y": "$int"})
+    C["c04:steps-acts-if"] = (wf("m", [step("s1", [irq("a1", **{"if": CONDS["A"]}), irq("a2"), irq("a3", **{"if": CONDS["C"]})]),
+                                       step("s2", [irq("a4")], **{"if": CONDS["B"]}), step("s3", [irq("a5")])]), {"x": "$int", "y": "$int"})
+    C["c04:nested"] = (wf("m", [step("s1", branches=[
+        branch("b1", [step("s11", branches=[
+            branch("b11", [step("s111", [irq("a1")])], **{"else": True}),
+            branch("b12", [step("s121", [irq("a2")])], **{"if": CONDS["B"]}),
+        ]), step("s12", [irq("a3")], **{"if": CONDS["C"]})], **{"if": CONDS["A"]}),
+        branch("b2", [step("s21", [irq("a4")])], **{"else": True}),
+    ]), step("s2", [irq("a5")])]), {"x": "$int", "y": "$int"})
+    return C
+
+
+_BASE_CATALOGUE = catalogue
+
+
+def catalogue():  # noqa: F811
+    C = _BASE_CATALOGUE()
+    C.update(c04_family())
+    return C
